@@ -326,7 +326,7 @@ func (u *Unit) globalVar(st *State, o *types.Var) Val {
 	n := smtName(name)
 	u.decls.declConst(n, s)
 	v := scalar(n, s, o.Type())
-	if types.Implements(o.Type(), errorIface) && isErrorType(o.Type()) {
+	if types.Implements(o.Type(), errorIface) {
 		// sentinel errors: non-nil and pairwise distinct (identified by a unique tag)
 		u.assumeOnce(st, tLt("0", n))
 		r := u.root()
